@@ -40,7 +40,7 @@ def run(ck):
         models = pu.Models(ck, jobs, max_workers=2)
         # (family, nodes, max list length, stride)
         fams = ([("rep", 3, 2, 1), ("repinit", 3, 2, 4), ("ec", 3, 0, 1), ("ec", 4, 0, 20)] if thorough
-                else [("rep", 3, 2, 3), ("repinit", 3, 2, 30), ("ec", 3, 0, 10), ("ec", 4, 0, 300)])
+                else [("rep", 3, 2, 4), ("repinit", 3, 2, 40), ("ec", 3, 0, 14), ("ec", 4, 0, 400)])
         parts = []
         for fam, m, ml, stride in fams:
             p = os.path.join(ck.tmp, "enum-%s-%d.ndjson" % (fam, m))
@@ -48,7 +48,7 @@ def run(ck):
             parts.append(vkit.read_ndjson(p))
             ck.setcov("enumerated_%s_%dnodes_stride%d" % (fam, m, stride), len(parts[-1]))
         p = os.path.join(ck.tmp, "rnd.ndjson")
-        ck.harness(binp, ["c25", "rnd", 15000 if thorough else 1500, p])
+        ck.harness(binp, ["c25", "rnd", 15000 if thorough else 1000, p])
         parts.append(vkit.read_ndjson(p))
         vkit.write_ndjson(scen_path, [s for part in parts for s in part])
     recs_path = os.path.join(ck.tmp, "records.ndjson")
